@@ -6,7 +6,9 @@ From CB Require Import Mach Client Gen Layout.
 Import ListNotations.
 Open Scope Z_scope.
 
-Inductive fileobj := FMissing | FDir | FFile (bytes : list Z).
+(* FNoPath e: the path cannot be resolved - a component is not a directory (ENOTDIR), a symlink
+   loop (ELOOP), a name that is too long (ENAMETOOLONG), ...: open(2) fails with that errno *)
+Inductive fileobj := FMissing | FDir | FFile (bytes : list Z) | FNoPath (errno : Z).
 
 Inductive okind := KNotInitialized | KMalformed | KSyscall (errno : Z) (origin : Z).
 (* origin: 1 = "open", 2 = "read SHM segment", 3 = "mmap SHM segment" *)
@@ -18,6 +20,7 @@ Definition reader_open (f : fileobj) : open_result :=
   match f with
   | FMissing => OpenErr (KSyscall ENOENT 1)
   | FDir => OpenErr (KSyscall EISDIR 2)
+  | FNoPath e => OpenErr (KSyscall e 1)
   | FFile bs =>
       if Nat.ltb (length bs) 16 then OpenErr KNotInitialized else
       let h := decode_header bs in
@@ -37,6 +40,7 @@ Definition pad_to (bs : list Z) (n : nat) : list Z := bs ++ repeat 0 (n - length
 Definition after_first_publication (f : fileobj) (r : ceb) : option (list Z) :=
   match f with
   | FDir => None
+  | FNoPath _ => None
   | _ =>
     match reader_open f with
     | OpenOk h =>
